@@ -83,6 +83,8 @@ partial def tyOfSexp : Sexp → Option Ty
   | .list [.atom "alias", t] => (tyOfSexp t).map (.wrap .alias)
   | .list [.atom "cls", k] => (atomNat? k).map .cls
   | .list [.atom "td", k] => (atomNat? k).map .td
+  | .list (.atom "union" :: ks) => (ks.mapM atomNat?).map (fun cs => .union cs false)
+  | .list (.atom "ounion" :: ks) => (ks.mapM atomNat?).map (fun cs => .union cs true)
   | _ => Option.none
 
 def dfltOfSexp : Sexp → Option Dflt
